@@ -47,6 +47,31 @@ BAD_FLAG_PREFIXES = ("--config-file", "--cache", "--no-incremental", "--incremen
                      "--install-types", "--non-interactive")
 
 
+# Violations the unchanged pinned tree produces, each confirmed with the real CLI (`python -m mypy`), for the record
+# (the main session decides what goes to known_findings.jsonl):
+CONFIRMED_ON_PINNED_TREE = {
+    "walk|TypedDictType.items#key-order|ff":
+        "a.py: `class TD(TypedDict): b: int; a: str`; main.py: `from a import TD; x: TD; reveal_type(x)`; run, touch "
+        "main.py, run again: cold says {'b': int, 'a': str}, warm (binary cache) says {'a': str, 'b': int}; JSON keeps "
+        "the order (types.write_type_map sorts keys)",
+    "walk|CallableType.from_type_type|ff+json":
+        "a.py: abstract B, concrete C1(B), C2(B), `xs = [C1, C2]`; main.py: `from a import xs; xs[0]()`: cold clean, warm "
+        "reports `Cannot instantiate abstract class \"B\"` (flag set by join, stored in neither format)",
+    "walk|CallableType.special_sig|ff+json":
+        "a.py: `class Shape(Tuple[Unpack[Ts]], Generic[Unpack[Ts]])`, `xs = [Shape, Shape]`; main.py: "
+        "`reveal_type(xs[0]((1, 'a')))`: cold tuple[Literal[1]?, Literal['a']?, fallback=a.Shape[...]], warm "
+        "a.Shape[*tuple[Never, ...]]",
+    "walk|Parameters.is_ellipsis_args|ff+json":
+        "a.py: `class C(Generic[P])`, `x: C[...]`; main.py: `reveal_type(x)`: cold a.C[...], warm a.C[[*Any, **Any]]",
+    "crash|json|TypeError|util.py:json_dumps":
+        "`x: Final[complex] = 1j` with --no-fixed-format-cache: INTERNAL ERROR, Object of type complex is not JSON "
+        "serializable (binary format and no cache are fine)",
+    "crash|ff|UnicodeEncodeError|cache.py:write_literal":
+        "`x: Final = \"\\ud800\"` (lone surrogate escape, valid Python) with the default binary format, even with "
+        "--no-incremental: INTERNAL ERROR UnicodeEncodeError in write_str_bare; JSON format is fine",
+}
+
+
 # --------------------------------------------------------------------------- lane helpers (run in pool workers)
 
 
